@@ -349,8 +349,15 @@ func (c *vnClient) PartialBeacon(ctx context.Context, p net.Peer, in *proto.Part
 		vn.inflight = append(vn.inflight, &vnMsg{id: id, from: c.from.idx, to: to.idx, pkt: cp})
 	}
 	vn.mu.Unlock()
+	sigEpoch := -1
+	for e := len(vn.epochs) - 1; e >= 0; e-- {
+		if vn.partialValid(e, in.Round, in.PreviousSignature, in.PartialSig) {
+			sigEpoch = e
+			break
+		}
+	}
 	vn.tr.Emit("Send", vlib.E{"from": c.from.idx, "to": toIdx, "round": in.Round, "prevd": vnDigest(in.PreviousSignature),
-		"clock": vn.T(c.from), "msg": id, "dropped": !ok})
+		"clock": vn.T(c.from), "msg": id, "dropped": !ok, "sigEpoch": sigEpoch})
 	atomic.AddInt64(&vn.c(c.from.addr).sends, 1)
 	if !ok {
 		return errors.New("vn: peer unreachable")
@@ -488,7 +495,7 @@ func vnNewNet(t *testing.T, tr *vlib.Trace, cf vnConf, seed int64) *vnNet {
 		vn.byAddr[n.addr] = n
 	}
 	tr.Emit("Init", vlib.E{"scenario": cf.Scenario, "n": cf.N, "t": cf.T, "chained": vn.chained, "period": cf.Period,
-		"catchup": cf.Catchup, "scheme": sch.Name, "backend": cf.Backend, "start": cf.StartAt})
+		"catchup": cf.Catchup, "scheme": sch.Name, "backend": cf.Backend, "start": cf.StartAt, "group": cf.Group})
 	return vn
 }
 
@@ -648,6 +655,9 @@ func (vn *vnNet) deliverMsg(m *vnMsg, kind string) {
 	}
 	ctx := peer.NewContext(context.Background(), &peer.Peer{Addr: vnAddr(fromAddr)})
 	var err error
+	// logged BEFORE the call: the aggregator may store the beacon before ProcessPartialBeacon returns
+	vn.tr.Emit("Deliver", vlib.E{"to": m.to, "from": m.from, "idx": idx, "round": m.pkt.Round, "prevd": vnDigest(m.pkt.PreviousSignature),
+		"kind": kind, "valid": valid, "member": member, "own": own, "epoch": ep, "msg": m.id})
 	r := vlib.Call(5*time.Second, func() { _, err = to.h.ProcessPartialBeacon(ctx, m.pkt) })
 	res := "ok"
 	if !r.Returned {
@@ -709,10 +719,15 @@ func (vn *vnNet) advPartial(to *vnNode, kind string, asIdx int, round uint64) *p
 	last, _ := to.h.chain.Last(context.Background())
 	prev := []byte(nil)
 	if vn.chained {
+		// previous signature: the stored signature of round-1 if any node has it, else the victim's head
 		prev = last.Signature
-		if round != last.Round+1 {
-			// previous signature of an arbitrary round is unknown: use the head's signature anyway
-			prev = last.Signature
+		for _, o := range vn.nodes {
+			if o.h != nil && o.up && round > 0 {
+				if b, err := o.h.chain.Get(context.Background(), round-1); err == nil && b != nil {
+					prev = b.Signature
+					break
+				}
+			}
 		}
 	}
 	sign := func(sh *share.PriShare, r uint64, p []byte) []byte {
@@ -806,8 +821,13 @@ func (vn *vnNet) quiesce(label string) {
 	heads := make([]int64, len(vn.nodes))
 	clocks := make([]int64, len(vn.nodes))
 	ups := make([]bool, len(vn.nodes))
+	liveEp := make([]int, len(vn.nodes))
 	for i, n := range vn.nodes {
 		heads[i] = -1
+		liveEp[i] = -1
+		if n.h != nil && n.up {
+			liveEp[i] = vn.nodeEpoch(n)
+		}
 		if n.h != nil && n.up {
 			if b, err := n.h.chain.Last(context.Background()); err == nil {
 				heads[i] = int64(b.Round)
@@ -819,7 +839,7 @@ func (vn *vnNet) quiesce(label string) {
 	vn.mu.Lock()
 	inflight := len(vn.inflight)
 	vn.mu.Unlock()
-	vn.tr.Emit("Quiesce", vlib.E{"label": label, "live": len(label) >= 4 && label[:4] == "live", "heads": heads, "clocks": clocks, "up": ups, "inflight": inflight})
+	vn.tr.Emit("Quiesce", vlib.E{"label": label, "live": len(label) >= 4 && label[:4] == "live", "heads": heads, "clocks": clocks, "up": ups, "inflight": inflight, "epochs": liveEp})
 }
 
 func (vn *vnNet) shutdown() {
